@@ -26,24 +26,42 @@ Proof. intros A B. unfold cont. rewrite bN_Nb by lia. rewrite (leb_true _ _ A), 
 Lemma inr_Nb lo hi n : lo <= n -> n <= hi -> n < 256 -> inr lo hi (Nb n) = true.
 Proof. intros A B C. unfold inr. rewrite bN_Nb by lia. rewrite (leb_true _ _ A), (leb_true _ _ B). reflexivity. Qed.
 
+Lemma uv2 c a r : 194 <= bN c -> bN c <= 223 -> utf8_valid (c :: a :: r) = cont a && utf8_valid r.
+Proof.
+  intros A B. cbn [utf8_valid]. rewrite ltb_false by lia. rewrite (leb_true 194), (leb_true _ 223) by lia. reflexivity.
+Qed.
+Lemma uv3 c a b r : 224 <= bN c -> bN c <= 239 -> utf8_valid (c :: a :: b :: r) =
+  (if bN c =? 224 then inr 160 191 a else if bN c =? 237 then inr 128 159 a else cont a) && cont b && utf8_valid r.
+Proof.
+  intros A B. cbn [utf8_valid]. rewrite ltb_false by lia. rewrite (leb_false _ 223) by lia. rewrite andb_false_r.
+  rewrite (leb_true 224), (leb_true _ 239) by lia. reflexivity.
+Qed.
+Lemma uv4 c a b d r : 240 <= bN c -> bN c <= 244 -> utf8_valid (c :: a :: b :: d :: r) =
+  (if bN c =? 240 then inr 144 191 a else if bN c =? 244 then inr 128 143 a else cont a) && cont b && cont d && utf8_valid r.
+Proof.
+  intros A B. cbn [utf8_valid]. rewrite ltb_false by lia. rewrite (leb_false _ 223) by lia. rewrite andb_false_r.
+  rewrite (leb_false _ 239) by lia. rewrite andb_false_r.
+  rewrite (leb_true 240), (leb_true _ 244) by lia. reflexivity.
+Qed.
+
+Lemma some_inj (a b : bytes) : Some a = Some b -> b = a.
+Proof. intros H. injection H as ->. reflexivity. Qed.
+Ltac inj H := apply some_inj in H; subst.
+
 Lemma utf8_valid_enc1 cp u r : utf8_enc1 cp = Some u -> utf8_valid (u ++ r) = utf8_valid r.
 Proof.
   unfold utf8_enc1.
   destruct (cp <? 128) eqn:E1; [apply N.ltb_lt in E1 | apply N.ltb_ge in E1].
-  { intros H. injection H as <-. cbn [app]. apply utf8_valid_cons_ascii. rewrite bN_Nb; lia. }
+  { intros H. inj H. cbn [app]. apply utf8_valid_cons_ascii. rewrite bN_Nb; lia. }
   destruct (cp <? 2048) eqn:E2; [apply N.ltb_lt in E2 | apply N.ltb_ge in E2].
-  { intros H. injection H as <-. cbn [app utf8_valid].
+  { intros H. inj H. cbn [app].
     assert (L : 194 <= 192 + cp / 64 <= 223) by arith.
-    rewrite (bN_Nb (192 + cp / 64)) by lia. rewrite ltb_false by lia. rewrite (leb_true 194), (leb_true _ 223) by lia. cbn [andb].
-    rewrite cont_Nb by arith. reflexivity. }
+    rewrite uv2 by (rewrite bN_Nb; lia). rewrite cont_Nb by arith. reflexivity. }
   destruct (cp <? 65536) eqn:E3; [apply N.ltb_lt in E3 | apply N.ltb_ge in E3].
   { destruct ((55296 <=? cp) && (cp <=? 57343)) eqn:S; [discriminate|].
-    intros H. injection H as <-. cbn [app utf8_valid].
+    intros H. inj H. cbn [app].
     assert (L : 224 <= 224 + cp / 4096 <= 239) by arith.
-    rewrite (bN_Nb (224 + cp / 4096)) by lia. rewrite ltb_false by lia.
-    rewrite (leb_false 194) || rewrite (leb_true 194) by lia.
-    rewrite (leb_false _ 223) by lia. rewrite ?andb_false_r. cbv iota.
-    rewrite (leb_true 224), (leb_true _ 239) by lia. cbn [andb].
+    rewrite uv3 by (rewrite bN_Nb; lia). rewrite (bN_Nb (224 + cp / 4096)) by lia.
     rewrite (cont_Nb (128 + cp mod 64)) by arith. rewrite andb_true_r.
     apply andb_false_iff in S.
     destruct (224 + cp / 4096 =? 224) eqn:F1; [apply N.eqb_eq in F1 | apply N.eqb_neq in F1].
@@ -54,12 +72,9 @@ Proof.
         rewrite inr_Nb by arith. reflexivity.
       + rewrite cont_Nb by arith. reflexivity. }
   destruct (cp <? 1114112) eqn:E4; [apply N.ltb_lt in E4 | discriminate].
-  intros H. injection H as <-. cbn [app utf8_valid].
+  intros H. inj H. cbn [app].
   assert (L : 240 <= 240 + cp / 262144 <= 244) by arith.
-  rewrite (bN_Nb (240 + cp / 262144)) by lia. rewrite ltb_false by lia.
-  rewrite (leb_false _ 223) by lia. rewrite ?andb_false_r. cbv iota.
-  rewrite (leb_false _ 239) by lia. rewrite ?andb_false_r. cbv iota.
-  rewrite (leb_true 240), (leb_true _ 244) by lia. cbn [andb].
+  rewrite uv4 by (rewrite bN_Nb; lia). rewrite (bN_Nb (240 + cp / 262144)) by lia.
   rewrite (cont_Nb (128 + cp mod 64)) by arith. rewrite (cont_Nb (128 + (cp / 64) mod 64)) by arith.
   rewrite !andb_true_r.
   destruct (240 + cp / 262144 =? 240) eqn:F1; [apply N.eqb_eq in F1 | apply N.eqb_neq in F1].
